@@ -20,7 +20,7 @@ from ..world import SimInterrupt, World, is_dispatch_verdict
 ID = "C18"
 NAME = "c18"
 LEVEL = "fault_enumeration"
-BUDGET = {"quick": 100, "thorough": 900}
+BUDGET = {"quick": 200, "thorough": 900}
 ASSUMPTIONS = [
     "faults are exceptions raised at source-line boundaries of library code (settrace line events); "
     "a fault half-way through a C-level call is not modelled",
@@ -268,7 +268,7 @@ def enumerate_faults(fam, trace, hook_counts, tier):
         n = visits[loc] = visits.get(loc, 0) + 1
         faults.append({"kind": "crash", "loc": loc, "nth": n, "exc": "interrupt"})
     m = len(faults)
-    step = 1 if tier == "thorough" else 3
+    step = 1 if tier == "thorough" else 5
     for i in range(0, m, step):
         f = dict(faults[i])
         f["exc"] = "memory"
@@ -473,15 +473,20 @@ def run_job(job):
 def jobs(tier, seed):
     stride = STRIDES[tier]
     if tier == "quick":
+        # every crash point of two fixed worlds (the third, two-argument world: four target kinds),
+        # plus a 1-in-8 sample of the crash points of 40 seeded families
         for name in FIXED:
             for tk in TARGET_KINDS:
+                if name == "multi" and tk not in ("first_call", "miss_call", "register", "invalid_first"):
+                    continue
+                if name != "chain" and tk == "first_resolve":
+                    continue
                 for part in range(stride):
                     yield {"kind": "fixed", "name": name, "tkind": tk, "tier": tier,
                            "stride": stride, "part": part}
-        for index in range(24):
-            for part in range(2):
-                yield {"kind": "seeded", "seed": seed, "index": index, "tier": tier,
-                       "stride": 2, "part": part}
+        for index in range(40):
+            yield {"kind": "seeded", "seed": seed, "index": index, "tier": tier,
+                   "stride": 8, "part": (index + seed) % 8}
     else:
         for name in FIXED:
             for tk in TARGET_KINDS:
